@@ -1,7 +1,12 @@
 import Driver.Loop
 import Driver.Codec
 import PyGqlModel.Differ
-open PyGql PyGql.Differ
+import PyGqlModel.Diff
+open PyGql PyGql.Differ PyGql.Diff
+
+def changeToJson (c : Change) : J :=
+  .obj [("cls", .str c.cls), ("sev", J.ofNat c.severity),
+        ("key", .arr (c.key.map fun (a, b) => .arr [.str a, .str b]))]
 
 def handleC20 (j : J) : J :=
   match j.strD "op" with
@@ -11,6 +16,10 @@ def handleC20 (j : J) : J :=
     .obj [("in", .bool (safeIn o n)), ("out", .bool (safeOut o n)), ("sub", .bool (sub o n))]
   | "severity" =>
     .obj [("sev", J.ofOpt J.ofNat (severityOf (j.strD "cls") (j.boolD "required")))]
+  | "diff" =>
+    let o := Driver.schemaOfJson (j.getD "old")
+    let n := Driver.schemaOfJson (j.getD "new")
+    .obj [("changes", .arr ((diffSchema o n (j.natD "min")).map changeToJson))]
   | _ => .obj [("error", .str "bad-op")]
 
 def main : IO Unit := Driver.run handleC20
